@@ -60,8 +60,8 @@ def build_expr(case, env):
 
 class ReduceBase(PropertyCheck):
     props_common = ['Tables.v']
-    static_targets = ['theories/Model/Exec.vo', 'theories/Model/Pinned.vo', 'theories/Lemmas/TablesL.vo', 'theories/Lemmas/ReduceStructsL.vo', 'theories/Lemmas/ReduceTotalL.vo']
-    coq_header = A.COQ_HEADER + 'From Furax Require Import Model.Wf Lemmas.ReduceStructsL Lemmas.ReduceTotalL.\nFrom FuraxGen Require Import Tables.\n'
+    static_targets = ['theories/Model/Exec.vo', 'theories/Model/Pinned.vo', 'theories/Lemmas/TablesL.vo', 'theories/Lemmas/ReduceStructsL.vo', 'theories/Lemmas/ReduceTotalL.vo', 'theories/Lemmas/ExecFactsL.vo']
+    coq_header = A.COQ_HEADER + 'From Furax Require Import Model.Wf Lemmas.ReduceStructsL Lemmas.ReduceTotalL Lemmas.ExecFactsL.\nFrom FuraxGen Require Import Tables.\n'
     shard = 120
     workers = 8
     trusted_common = [
@@ -226,7 +226,11 @@ class ReduceBase(PropertyCheck):
         # what cannot be read off a term but holds of every real object; weight <= the 12-level fuel) are evaluated on
         # every encoded real expression: reduce_readyb = wfo && prims_okb && params_okb && (weight <=? alg_fuel)
         t = case['_term']
-        return f'(reduce_readyb {t}, observe {case["_table"]} (x_reduce gen_order {t}))'
+        # table_okb (Lemmas/ExecFactsL.v): the measured matrices have the declared dimensions, the matrix of every lazy
+        # inverse / transpose wrapper IS the two-sided inverse / the transpose of its operand's - the decidable
+        # hypothesis under which the leaf facts lf_inv_l/r and the adjoint facts are THEOREMS for the executable semantics
+        return (f'(let tb := {case["_table"]} in let e := {t} in '
+                f'((reduce_readyb e && table_okb tb e)%bool, observe tb (x_reduce gen_order e)))')
 
     def decode(self, case, v):
         wf, o = v
